@@ -90,14 +90,16 @@ def cases(tier, seed):
         Ds, pats, reps = [1, 2, 3, 5, 8], ['random', 'zeros_high', 'last_only', 'x1_zero', 'alternating', 'big'], 1
         Ps, shapes = [1, 2], [(), (3,), (2, 2)]
     else:
-        Ds, pats, reps = [1, 2, 3, 4, 5, 6, 8, 10, 12], gen.PATTERNS, 3
+        Ds, pats, reps = [1, 2, 3, 4, 6, 8, 10, 12], gen.PATTERNS, 1
         Ps, shapes = [1, 2, 3, 4], [(), (1,), (3,), (2, 2), (2, 1, 2), (1, 3)]
     out = []
     names = list(T().keys()) + PIECEWISE + SPECIAL2
     for name in names:
         for D in Ds:
-            if name.startswith('hyperu') and D > (5 if tier == 'quick' else 8):
+            if name.startswith('hyperu') and D > (5 if tier == 'quick' else 6):
                 continue        # mp.taylor of mp.hyperu costs minutes beyond that
+            if name.startswith(('gammaln', 'psi', 'polygamma', 'erfi', 'dawsn')) and D > 8:
+                continue        # numerical differentiation of these mpmath functions is slow at high order
             for pat in pats:
                 for rep in range(reps):
                     s = case_seed('C01', seed, name, D, pat, rep)
@@ -196,6 +198,25 @@ def run_case(ctx, case):
                                'first_bad_order': d_bad, 'got': complex(got[d_bad]) if cplx else float(np.real(got[d_bad])),
                                'want': str(mp.nstr(ref[d_bad], 17)), 'err_over_majorant': e, 'x': [complex(v) if cplx else float(v) for v in xs]})
                 return
+    # same object, data updated in place, evaluated again: the result must follow the new data (no state leaks between calls)
+    data2 = gen.series_data(rng, D, P, shape, dom, 'random', cplx)
+    how = int(rng.integers(3))
+    if how == 0:
+        x.data[...] = data2
+    elif how == 1:
+        x += UTPM(data2 - x.data)
+    else:
+        x[...] = UTPM(data2.copy())
+    try:
+        y2 = _unwrap(f(x), D, P, shape)
+    except Exception as e:
+        ctx.violation('%s:raises-on-second-call' % name, {'fn': name, 'entry': ename, 'error': repr(e)[:200]}); return
+    pp = int(rng.integers(P)); idx = _elements(shape, rng, 1)[0]
+    ref, maj = O.series(t['mp'], list(data2[(slice(None), pp) + idx]))
+    e2 = O.err_over_maj(list(y2[(slice(None), pp) + idx]), ref, maj) if y2 is not None and y2.shape == data2.shape else float('inf')
+    if not e2 <= TAU:
+        ctx.violation('%s:stale-result-after-inplace-update' % name, {'fn': name, 'entry': ename, 'D': D, 'P': P, 'shape': shape, 'update': ['data[...]=', '+=', 'x[...]='][how],
+                                                                      'err_over_majorant': e2}); return
     ctx.ok(name, cls, noise=worst,
            sample={'fn': name, 'entry': ename, 'D': D, 'P': P, 'shape': shape, 'complex': cplx, 'pattern': pat,
                    'x[:,0,first]': [str(v) for v in data[(slice(None), 0) + (tuple(0 for _ in shape))][:3]],
